@@ -328,7 +328,7 @@ impl<'a> Alignment<'a> {
 
     //@ fn src/align.rs Alignment::mismatch_cost
     //@| requires parent < self.table@.len(), self.table@[parent as int].cost + basic_cost + ${PC} <= usize::MAX,
-    //@| ensures r == self.table@[parent as int].cost + basic_cost + pen(self.table@[parent as int]),
+    //@| ensures r == self.table@[parent as int].cost + basic_cost + pen(self.table@[parent as int]),  // @C06:mismatch.cost.adds.the.penalty.for.starting.a.new.run
 
     //@ fn src/align.rs Alignment::fill
     //@| requires old(self).shape_ok(), old(self).origin_ok(),
@@ -356,7 +356,7 @@ impl<'a> Alignment<'a> {
     //@ fn src/align.rs Alignment::new
     //@| requires x@.len() >= 1, y@.len() >= 1, x@[0]@ == y@[0]@,
     //@|          (y@.len() + 1) * (x@.len() + 1) <= usize::MAX, ${DC} * (x@.len() + 1) + ${IC} * (y@.len() + 1) + 2 * ${PC} + 2 <= usize::MAX,
-    //@| ensures r.filled(), r.x == x, r.y == y,
+    //@| ensures r.filled(), r.x == x, r.y == y,  // @C06:a.new.alignment.is.a.filled.table.over.the.two.token.sequences
     //@before <<<let dim = >>>| proof { assert((y@.len() + 1) * (x@.len() + 1) >= 1) by(nonlinear_arith); }
     //@rewrite <<<vec![ Cell { parent: 0, operation: NoOp, cost: 0 }; dim[0] * dim[1] ]>>> => <<<verif_vec_repeat(Cell { parent: 0, operation: NoOp, cost: 0 }, dim[0] * dim[1])>>>
 
